@@ -126,10 +126,18 @@ def build(rng: random.Random, kind: str):
     kw = {}
     if kind == "cylindrical_surface" and rng.random() < 0.5:
         kw["axis_names"] = ["phi", "z"]
+    # the surface / angle classes carry a radius of their own (plotting aid): the measures of the statement do not depend on it
+    set_radius = None
+    if kind in ("azimuthal", "spherical_surface", "cylindrical_surface") and rng.random() < 0.5:
+        set_radius = rng.choice([2.0, 0.5, 7.5])
+        if rng.random() < 0.5:
+            kw["radius"] = set_radius
     if len(bins) == 1:
         h = cls(bins[0], freq, **kw)
     else:
         h = cls(bins, freq, **kw)
+    if set_radius is not None and "radius" not in kw:
+        h.radius = set_radius
     pairs = [np.asarray(b) if gapped else np.stack([b[:-1], b[1:]], axis=1) for b in bins]
     return h, pairs, full, R
 
@@ -282,6 +290,78 @@ def geometry_problems(h):
     return probs
 
 
+def selection_case(ctx, index, rng: random.Random):
+    """The self-description of a selection (slice / mask / index array / ND selection), taken after the source's
+    representations were read: edges, widths, measures and densities are those of the selected bins."""
+    from .. import snapshot as snap_
+
+    rec = ctx.rec
+    rec.mon("C16.geometry")
+    kind = rng.choice(["h1", "h1", "h2", "hnd", "radial", "azimuthal", "polar", "cylindrical_surface"])
+    try:
+        with warnings.catch_warnings():
+            warnings.simplefilter("ignore")
+            h, pairs, full, R = build(rng, kind)
+            for nm in rng.sample(["edges", "numpy_like", "bins", "bin_sizes", "densities", "total"], rng.randint(1, 4)):
+                try:
+                    getattr(h, nm)
+                except Exception:
+                    pass
+            for b in h.binnings:
+                gen.touch_binning(rng, b, p=0.7)
+            n0 = h.shape[0]
+            if n0 < 2:
+                rec.case(["selection", kind, "too_small"], False, cls="selection/too_small")
+                return
+            a = rng.randint(0, n0 - 1)
+            b_ = rng.randint(a + 1, n0)
+            how = rng.choice(["slice", "mask", "index", "select"] if h.ndim == 1 else ["slice", "select"])
+            if how == "slice":
+                g = h[a:b_]
+                idx = list(range(a, b_))
+            elif how == "mask":
+                m = np.zeros(n0, dtype=bool)
+                m[a:b_] = True
+                g = h[m]
+                idx = list(range(a, b_))
+            elif how == "index":
+                idx = sorted(rng.sample(range(n0), rng.randint(1, n0)))
+                g = h[np.array(idx)]
+            else:
+                g = h.select(0, slice(a, b_))
+                idx = list(range(a, b_))
+    except OverflowError:
+        # compact integer contents: the weight cut off by the selection does not fit the content type and is refused
+        # loudly (never wrapped) - nothing to inspect
+        rec.case(["selection", kind, "cut_off_weight_overflow"], False, cls="selection/cutoff_overflow_refused")
+        return
+    except Exception as e:
+        rec.fail(monitor="C16.geometry", op=f"selection/{kind}", symptom=f"selection raised {type(e).__name__}", diff=["raised"], detail={"kind": kind, "error": str(e)[:160]})
+        return
+    with attach.quiet(), warnings.catch_warnings():
+        warnings.simplefilter("ignore")
+        probs = []
+        try:
+            want = pairs[0][idx]
+            got = np.asarray(g.bins if g.ndim == 1 else g.bins[0], dtype=float)
+            if got.shape != want.shape or not np.array_equal(got, want):
+                probs.append("bins of the selection are not the selected bins")
+            probs += snap_.wellformed_problems(g)
+            cons = all(np.array_equal(np.asarray(bb)[1:, 0], np.asarray(bb)[:-1, 1]) for bb in ([g.bins] if g.ndim == 1 else g.bins))
+            if cons or g.ndim > 1:
+                probs += geometry_problems(g)
+            if g.ndim == 1 and cons:
+                f_, e_ = g.numpy_like
+                if len(np.asarray(e_)) != len(np.asarray(f_)) + 1:
+                    probs.append(f"numpy_like: {len(np.asarray(f_))} contents with {len(np.asarray(e_))} edges")
+        except Exception as e:
+            probs.append(f"inspection raised {type(e).__name__}: {str(e)[:100]}")
+        if probs:
+            rec.fail(monitor="C16.geometry", op=f"selection/{kind}/{how}", symptom="a selection does not describe itself consistently (edges / widths / measures vs its bins and contents)",
+                     diff=["geometry"], detail={"kind": kind, "how": how, "problems": probs[:4], "selected": idx[:8]})
+    rec.case(["selection", kind, how, idx, [p.tolist() for p in pairs]], len(idx) < n0, cls=f"selection/{kind}/{how}")
+
+
 def detached_case(ctx, index, rng: random.Random):
     """Geometry vs contents of a histogram are re-inspected after a histogram derived from it (or its source) has grown."""
     from ..monitors import structure
@@ -292,3 +372,4 @@ def detached_case(ctx, index, rng: random.Random):
 def run(ctx):
     ctx.run_cases(ctx.scale(500, 4000), one_case)
     ctx.run_cases(ctx.scale(100, 600), detached_case, salt="detached")
+    ctx.run_cases(ctx.scale(120, 800), selection_case, salt="selection")
